@@ -82,6 +82,7 @@ func cmdCheck(args []string) int {
 	verbose := fs.Bool("v", false, "verbose")
 	noEvidence := fs.Bool("no-evidence", false, "do not write the evidence file")
 	dirFilter := fs.String("dirs", "", "only load contract dirs matching this regexp")
+	noReplay := fs.Bool("no-replay", false, "do not search counterexamples / replay failed obligations")
 	fs.Parse(args)
 	t0 := time.Now()
 	if *timeout == 0 {
@@ -297,9 +298,14 @@ func cmdCheck(args []string) int {
 				continue
 			}
 			nViol++
-			rp := writeReplay(*verif, *prop, o)
+			var model cexModel
+			var rr *replayResult
+			if !*noReplay {
+				model, rr = prog.replayObligation(o, smtDir)
+			}
+			rp := writeReplay(*verif, *prop, o, model, rr)
 			suffix := ""
-			if o.Status != "failed" || !replayConfirmed(o) {
+			if rr == nil || !rr.Confirmed {
 				suffix = " no-failing-input-found"
 			}
 			pid := *prop
@@ -380,12 +386,11 @@ func loadKnown(path string) []KnownFinding {
 	return out.Findings
 }
 
-func replayConfirmed(o *Obligation) bool { return false }
-
-func writeReplay(verif, prop string, o *Obligation) string {
+func writeReplay(verif, prop string, o *Obligation, model cexModel, rr *replayResult) string {
 	p := filepath.Join(verif, "replays", sanitize(prop+"_"+o.Name)+".json")
 	rp := map[string]any{"property": prop, "obligation": o.Name, "function": o.Fn, "kind": o.Kind, "clause": o.Desc, "position": o.Pos,
-		"verdict": o.Result.Verdict, "solver": o.Result.Solver, "solver_output": truncate(o.Result.Output, 8000), "status": o.Status}
+		"verdict": o.Result.Verdict, "solver": o.Result.Solver, "solver_output": truncate(o.Result.Output, 8000), "status": o.Status,
+		"counterexample_input": model, "replay_on_real_code": rr}
 	data, _ := json.MarshalIndent(rp, "", " ")
 	os.WriteFile(p, data, 0o644)
 	os.WriteFile(strings.TrimSuffix(p, ".json")+".smt2", []byte(o.Query), 0o644)
